@@ -47,6 +47,12 @@ impl<I, D: Data<Elem = A>, A: Float> AffFuncBase<I, D> {
 }
 
 // ---------------------------------------------------------------- specification
+// no decision below the root has two terminal children carrying the same affine function (nothing for reduce to do)
+pub open spec fn no_mergeable(a: AArena<2>, root: usize) -> bool {
+    forall|p: usize| #![trigger a[p].children] a.dom().contains(p) && p != root && a[p].children[0] is Some && a[p].children[1] is Some
+        && no_kids(a[a[p].children[0].unwrap()]) && no_kids(a[a[p].children[1].unwrap()])
+        ==> !same_aff(a[a[p].children[0].unwrap()].value.aff, a[a[p].children[1].unwrap()].value.aff)
+}
 // one merge: decision p (below g at slot gl) with the terminal children l (slot 0) and r (slot 1) is replaced by l
 pub open spec fn merge_step<const K: usize>(a0: AArena<K>, a1: AArena<K>, p: usize, l: usize, r: usize, g: usize, gl: int) -> bool {
     &&& a0.dom().contains(p) && a0.dom().contains(l) && a0.dom().contains(r) && a0.dom().contains(g) && l != r && p != l && p != r && g != p && g != l && g != r
@@ -207,6 +213,8 @@ impl AffTree<2> {
         // ... and the tree never grows; surviving nodes keep their index
         forall|i: usize| final(self).a().dom().contains(i) ==> #[trigger] old(self).a().dom().contains(i),
         final(self).a().dom().len() <= old(self).a().dom().len(),
+        // C08 (idempotence): a tree in which no decision below the root has two equal terminal children - what a run of reduce aims at - is left exactly as it is
+        no_mergeable(old(self).a(), old(self).tree.root.unwrap()) ==> final(self).a() == old(self).a(),
 //@hint start
         let ghost rt = self.tree.root.unwrap();
         proof { lemma_same_denotation_refl(self.a(), rt, self.in_dim); }
@@ -217,6 +225,7 @@ impl AffTree<2> {
                 same_denotation(old(self).a(), self.a(), rt, self.in_dim),
                 forall|i: usize| self.a().dom().contains(i) ==> #[trigger] old(self).a().dom().contains(i),
                 self.a().dom().len() <= old(self).a().dom().len(),
+                no_mergeable(old(self).a(), rt) ==> self.a() == old(self).a(),
                 0 <= __e <= elements@.len(),
             decreases elements@.len() - __e
 //@hint loop 1 start
